@@ -587,7 +587,19 @@ Definition reload_ok (p : state * state) : bool :=
     (mkState (s_data b) (s_changes b) (s_tasks b) (live_warnings b) (live_notices b) (s_last_change b) (s_last_task b)
        (s_last_lane b) (s_last_notice b) (s_lnts b)) a.
 
+(* (3) the notices of a state are a map keyed by (user id present?, user id, type, key): in every observed state no two
+       notices have the same key (a recurrence after a reload must bump the existing notice, not create a second one) *)
+Fixpoint notices_unique (l : list notice) : bool :=
+  match l with
+  | [] => true
+  | n :: r => negb (existsb (fun m => opt_N_eqb (n_uid n) (n_uid m) && beq (n_type n) (n_type m) && beq (n_key n) (n_key m)) r)
+              && notices_unique r
+  end.
+
 Definition monitor_fail (c : case) : bool :=
   match c with
-  | Case ops ids reloads final => negb (ids_ok ids && forallb reload_ok reloads)
+  | Case ops ids reloads final =>
+      negb (ids_ok ids && forallb reload_ok reloads
+            && forallb (fun p => notices_unique (s_notices (fst p)) && notices_unique (s_notices (snd p))) reloads
+            && notices_unique (s_notices final))
   end.
